@@ -7,6 +7,7 @@
 //   -DCFG_BACK=0|1     SmallSet backing set: 0 = std::set, 1 = amc::FlatSet
 //   -DCFG_UVEC=0..3    FlatSet underlying vector: 0 = amc::vector, 1 = SmallVector<T,CFG_N>, 2 = FixedCapacityVector<T,CFG_UCAP> (default 64),
 //                      3 = std::vector
+//   -DCFG_CMP=0..5     5 = transparent less with the heterogeneous key Band{d} (equivalent to every v with v / 4 == d);
 //   -DCFG_CMP=0..4     4 = StatefulLess in a different state (m = 7 + 3c) in every set c of the pool; 0 = std::less, 1 = std::greater, 2 = ModLess (coarse: compares v % 5, stateless),
 //                      3 = StatefulLess (compares v % m, m given at construction; default constructed m = 1000003)
 //   -DCFG_CAT=0|2      0 = int, 2 = ElemNTR (identity tracked, self-referential)
@@ -81,6 +82,24 @@ struct ModLess {
     return val(a) % 5 < val(b) % 5;
   }
 };
+struct Band {
+  int d;
+};
+struct TranspLess {
+  using is_transparent = void;
+  bool operator()(const Elem &a, const Elem &b) const {
+    ++gCmp;
+    return val(a) < val(b);
+  }
+  bool operator()(const Elem &a, const Band &k) const {
+    ++gCmp;
+    return val(a) / 4 < k.d;
+  }
+  bool operator()(const Band &k, const Elem &b) const {
+    ++gCmp;
+    return k.d < val(b) / 4;
+  }
+};
 struct StatefulLess {
   int m;
   StatefulLess() : m(1000003) {}
@@ -103,6 +122,11 @@ static Cmp makeCmp(int = 0) { return Cmp(); }
 #elif CFG_CMP == 3
 using Cmp = StatefulLess;
 static Cmp makeCmp(int = 0) { return Cmp(7); }
+#elif CFG_CMP == 5
+// "transp": a transparent comparator; the heterogeneous key `Band{d}` is equivalent to every element v with v / 4 == d
+// (a run of up to four consecutive elements: count may exceed 1, lower_bound / upper_bound delimit the run)
+using Cmp = TranspLess;
+static Cmp makeCmp(int = 0) { return Cmp(); }
 #else
 // "mix": every set of the pool holds a comparator object in a different state (as std::set allows)
 using Cmp = StatefulLess;
@@ -164,6 +188,23 @@ using Set = amc::SmallSet<Elem, CFG_N, Cmp, Alloc, std::set<Elem, Cmp, Alloc>>;
 using Set = amc::SmallSet<Elem, CFG_N, Cmp, Alloc, amc::FlatSet<Elem, Cmp, Alloc>>;
 #endif
 using Ref = std::set<Elem, Cmp>;
+// a set of ANOTHER type as the source of merge: different comparator type (and, for SmallSet, different N)
+#if CFG_CMP == 1
+using Cmp2 = CountLess;
+#else
+using Cmp2 = CountGreater;
+#endif
+#if CFG_IMPL == 0
+#if CFG_UVEC == 2
+using Set2 = amc::FlatSet<Elem, Cmp2, amc::vec::EmptyAlloc, UVec>;
+#else
+using Set2 = amc::FlatSet<Elem, Cmp2, Alloc, UVec>;
+#endif
+#elif CFG_BACK == 0
+using Set2 = amc::SmallSet<Elem, CFG_N + 2, Cmp2, Alloc, std::set<Elem, Cmp2, Alloc>>;
+#else
+using Set2 = amc::SmallSet<Elem, CFG_N + 2, Cmp2, Alloc, amc::FlatSet<Elem, Cmp2, Alloc>>;
+#endif
 
 static const int kMaxPool = 4;
 static int gPool = 3;
@@ -383,6 +424,41 @@ int main() {
             ret = std::to_string((unsigned long long)k);
             if (k != r.count(e)) oracle = "MISMATCH-ret";
           }
+#if CFG_CMP == 5
+        } else if (op == "hfind" || op == "hhas" || op == "hcnt") {
+          // heterogeneous lookups under a transparent comparator
+          Band k{(int)N(2)};
+          gCmp = 0;
+          if (op == "hfind") {
+            auto it = s.find(k);
+            cmpsOp = gCmp;
+            // WHICH of several equivalent elements is designated is unspecified: it must be one of the band
+            ret = it == s.end() ? std::string("end") : (val(*it) / 4 == k.d ? "in-band" : "out-of-band:" + std::to_string(val(*it)));
+            auto q = r.find(k);
+            if ((q == r.end()) != (it == s.end()) || (it != s.end() && val(*it) / 4 != k.d)) oracle = "MISMATCH-ret";
+          } else if (op == "hhas") {
+            bool b = s.contains(k);
+            cmpsOp = gCmp;
+            ret = b ? "1" : "0";
+            if (b != (r.count(k) != 0)) oracle = "MISMATCH-ret";
+          } else {
+            auto n = s.count(k);
+            cmpsOp = gCmp;
+            ret = std::to_string((unsigned long long)n);
+            if (n != r.count(k)) oracle = "MISMATCH-ret";
+          }
+#if CFG_IMPL == 0
+        } else if (op == "hlb" || op == "hub") {
+          Band k{(int)N(2)};
+          gCmp = 0;
+          auto it = op == "hlb" ? s.lower_bound(k) : s.upper_bound(k);
+          cmpsOp = gCmp;
+          ret = itVal(it, s) + "@" + std::to_string(it - s.begin());
+          auto q = op == "hlb" ? r.lower_bound(k) : r.upper_bound(k);
+          if (itVal(q, r) != itVal(it, s) || (size_t)std::distance(r.begin(), q) != (size_t)(it - s.begin()))
+            oracle = "MISMATCH-ret";
+#endif
+#endif
 #if CFG_IMPL == 0
         } else if (op == "lb" || op == "ub") {
           Elem e((int)N(2));
@@ -481,6 +557,24 @@ int main() {
             }
 #endif
           }
+        } else if (op == "mrgx") {
+          // merge from a set of another type (comparator type Cmp2; SmallSet: also another N) built from the listed values
+          std::vector<int> vals = parseList(t[2]);
+          Set2 tmp;
+          for (int v : vals) tmp.insert(Elem(v));
+          std::vector<int> srcOrder;
+          for (auto it = tmp.begin(); it != tmp.end(); ++it) srcOrder.push_back(val(*it));
+          gCmp = 0;
+          s.merge(tmp);
+          cmpsOp = gCmp;
+          // reference: the source visited in the order the implementation iterates it (unspecified by the standard)
+          std::vector<int> left;
+          for (int v : srcOrder)
+            if (!r.insert(Elem(v)).second) left.push_back(v);
+          ret = "[" + listOf(tmp) + "]";
+          std::vector<int> got;
+          for (auto it = tmp.begin(); it != tmp.end(); ++it) got.push_back(val(*it));
+          if (got != left) oracle = "MISMATCH-left";
         } else if (op == "xfer") {
 #if __cplusplus >= 201703L
           // node = d.extract(v); c.insert(std::move(node)); a node that was not inserted goes back into d
